@@ -406,8 +406,14 @@ def mk_reply(rng, tb, clean=True, big=False, depth=0):
             if rng.random() < 0.6:
                 es.append(rng.choice([["a", []], ["a", None]]))
             return ["a", es]
-        elems = [["b", rng.choice(tb["commands"])]] + [rng.choice([mk_int(rng), ["b", mk_bytes(rng)]]) for _ in range(rng.randint(0, 2))]
+        elems = [["b", rng.choice(tb["commands"])]] + [rng.choice([mk_int(rng), ["b", mk_bytes(rng)], ["s", rng.choice(tb["keywords"])]])
+                                                        for _ in range(rng.randint(0, 3))]
         elems.insert(rng.randint(1, len(elems)), inner(1))
+        if rng.random() < 0.3:
+            # a status line early in the array and an element longer than the reader's buffer behind it (an EXEC reply):
+            # the line must still be what it was when the array is complete
+            elems.insert(1, ["s", rng.choice(tb["keywords"])])
+            elems.append(["b", mk_bytes(rng, True)])
         return ["a", elems]
     n = rng.randint(1, 5)
     elems = []
